@@ -123,6 +123,9 @@ class RawPeer:
     # ---------------------------------------------------------------- passive / data
     async def passive(self, verb="EPSV"):
         code, lines = await self.cmd(verb)
+        return self.parse_passive(code, lines)
+
+    def parse_passive(self, code, lines):
         self.passive_port = None
         if code == "229":
             m = re.search(r"\(\|\|\|(\d+)\|\)", lines[-1])
